@@ -194,6 +194,8 @@ def gen_c05(rng, long: bool = False) -> Dict[str, Any]:
     cfg["ports"] = rng.choice([None, ALL_PORTS, [20002, 20003], [20002], [10003, 10002]])
     ports = cfg["ports"] or ALL_PORTS
     steps: List[dict] = [{"kind": "start"}]
+    if rng.random() < 0.1:
+        steps = [{"kind": "start"}, {"kind": "stop"}, {"kind": "start"}]
     n = rng.randrange(200, 600) if long else rng.randrange(1, 25)
     specs: List[Dict[str, Any]] = []
     for t in range(n):
@@ -279,6 +281,12 @@ def gen_c07(rng, long: bool = False) -> Dict[str, Any]:
     if rng.random() < 0.15:
         cfg["rxq_limit"] = rng.choice([1, 2, 4])
     steps: List[dict] = [{"kind": "start"}]
+    if rng.random() < 0.12:
+        steps = rng.choice([
+            [{"kind": "start"}, {"kind": "stop"}, {"kind": "start"}],
+            [{"kind": "aenter"}, {"kind": "aexit"}, {"kind": "sleep", "s": 0.01}, {"kind": "aenter"}],
+            [{"kind": "occupy", "port": ports[-1]}, {"kind": "start"}, {"kind": "release", "port": ports[-1]}, {"kind": "start"}],
+        ])
     second = None
     if rng.random() < 0.12:
         # another bridge object in the same process tries to use one of the same ports (and fails)
@@ -423,7 +431,8 @@ def gen_c17(rng, index: Optional[int] = None, maxlen: int = 4, long: bool = Fals
                     send(ports, late=True)          # a datagram in flight / queued / just read when stop is called
                     for _ in range(rng.choice([0, 1, 2, 2, 3, 4])):
                         steps.append({"kind": "sleep", "s": 0.0})
-                steps.append({"kind": rng.choice(["stop", "stop", "aexit"]), "exc": rng.random() < 0.3})
+                steps.append({"kind": rng.choice(["stop", "stop", "aexit"]), "exc": rng.random() < 0.3,
+                              "exc_kind": rng.choice(["plain", "cancelled", "keyboard", "base"])})
             elif a == "send":
                 send(ports)
             elif a.startswith("occupy"):
@@ -450,7 +459,8 @@ def gen_c17(rng, index: Optional[int] = None, maxlen: int = 4, long: bool = Fals
                 send(ports, late=True)
                 for _ in range(rng.choice([0, 1, 2, 2, 3, 4])):
                     steps.append({"kind": "sleep", "s": 0.0})
-            steps.append({"kind": rng.choice(["stop", "aexit"]), "exc": rng.random() < 0.3})
+            steps.append({"kind": rng.choice(["stop", "aexit"]), "exc": rng.random() < 0.3,
+                          "exc_kind": rng.choice(["plain", "cancelled", "keyboard", "base"])})
             running = False
         elif r < 0.75:
             send(ports, late=rng.random() < 0.3)
